@@ -221,7 +221,10 @@ class UnitOut:
         self.classes[k] += n
 
     def outcome(self, *parts):
-        self.outcomes.add(hashlib.blake2b(repr(parts).encode(), digest_size=8).hexdigest())
+        # a vacuity indicator ("did anything differ at all"), not a result: bounded per unit so that sweeps with tens of
+        # millions of executions do not carry tens of millions of digests around
+        if len(self.outcomes) < 100_000:
+            self.outcomes.add(hashlib.blake2b(repr(parts).encode(), digest_size=8).hexdigest())
 
     def sample(self, s):
         if len(self.samples) < 3:
